@@ -1193,6 +1193,29 @@ func checkScn(t *testing.T, scn Scn, m *vlib.Model, repeats int) outcome {
 	return out
 }
 
+// shrinkSleeps: after the script has been shrunk, every long idle is replaced by the shortest of the
+// idle durations (and 1 ms) that still shows the failure.
+func shrinkSleeps(scn Scn, fails func(Scn) bool) Scn {
+	for i, a := range scn.Script {
+		if a.Op != "sleep" || a.V < idleDurations[0] {
+			continue
+		}
+		for _, d := range append([]int{1}, idleDurations...) {
+			if d >= a.V {
+				break
+			}
+			c := scn
+			c.Script = append([]Act{}, scn.Script...)
+			c.Script[i].V = d
+			if fails(c) {
+				scn = c
+				break
+			}
+		}
+	}
+	return scn
+}
+
 func hasKind(vs []Viol, k string) (Viol, bool) {
 	for _, v := range vs {
 		if v.Kind == k {
@@ -1234,6 +1257,10 @@ func record(t *testing.T, scn Scn, m *vlib.Model, repeats int, res *vlib.Result)
 			s2 := scn
 			s2.Script = c
 			_, hit := hasKind(checkScn(t, s2, nil, repeats).viols, v.Kind)
+			return hit
+		})
+		small = shrinkSleeps(small, func(c Scn) bool {
+			_, hit := hasKind(checkScn(t, c, nil, repeats).viols, v.Kind)
 			return hit
 		})
 		what := v.What
